@@ -152,11 +152,21 @@ def make_balancing(rng, case):
     """Puts some of the PTI/PTOs into load-sharing mode 0 for the whole series: their electrical power is then an output
     of the electrical balance (they share the bus load like a source), not an input."""
     names = []
-    for c in case["spec"]["electric"]:
-        if c["kind"] == "pti_pto" and rng.random() < 0.6:
-            case["inputs"]["comp"][c["name"]]["mode"] = [0.0] * case["inputs"]["n"]
-            case["inputs"]["mech"][c["name"]]["full"] = [False] * case["inputs"]["n"]
-            names.append(c["name"])
+    ptis = [c for c in case["spec"]["electric"] if c["kind"] == "pti_pto"]
+    n = case["inputs"]["n"]
+    if len(ptis) >= 2 and rng.random() < 0.6:
+        # one machine shares the bus load while another one carries its shaft alone in some step
+        k = int(rng.integers(len(ptis)))
+        chosen = [ptis[k]]
+        other = ptis[(k + 1) % len(ptis)]
+        if not any(case["inputs"]["mech"][other["name"]]["full"]):
+            case["inputs"]["mech"][other["name"]]["full"][int(rng.integers(n))] = True
+    else:
+        chosen = [c for c in ptis if rng.random() < 0.6]
+    for c in chosen:
+        case["inputs"]["comp"][c["name"]]["mode"] = [0.0] * n
+        case["inputs"]["mech"][c["name"]]["full"] = [False] * n
+        names.append(c["name"])
     case["balancing_pti"] = names
 
 
@@ -222,7 +232,7 @@ def run(ctx):
         case = R.gen_plant_case(ctx.rng, i, kind="hybrid")
         if ctx.rng.random() < 0.5:        # user-style names: the PTI/PTOs of different switchboards and shaft lines share a name
             plants.relabel(case["spec"])
-        if ctx.rng.random() < 0.25:       # PTI/PTOs whose power the electrical balance decides (load-sharing mode 0)
+        if ctx.rng.random() < 0.4:        # PTI/PTOs whose power the electrical balance decides (load-sharing mode 0)
             make_balancing(ctx.rng, case)
         cases.append(case)
     for ci, case in enumerate(cases):
